@@ -443,6 +443,19 @@ def b_sum(eng, e, st):
         v = q.vars[0]
         n = q.views[0].n
         x = eng.num(q.elem)
+        spec = (getattr(eng.cur, "sum_specs", None) or {}).get(ast.unparse(e))
+        if spec is not None and cur.pure is None:
+            # SUM RULE (induction built into the verifier, like a loop invariant): if a
+            # spec-level prefix-sum G satisfies G(0) = 0 and G(v+1) = G(v) + x(v) on [0, n)
+            # -- both proved here as obligations -- then sum(x(v) for v < n) = G(n).
+            from .engine import Ctx
+            G = spec(Ctx(eng, eng.h0, cur.heap, eng.args0), cur)
+            nn = z3.If(n > 0, n, 0)
+            eng.oblige(cur, f"sum-rule:init:{ast.unparse(e)[:40]}", G(z3.IntVal(0)) == 0, "sum", e)
+            eng.oblige(cur, f"sum-rule:step:{ast.unparse(e)[:40]}",
+                       forall([v], z3.Implies(z3.And(v >= 0, v < n), G(v + 1) == G(v) + x)), "sum", e)
+            out.append((cur, vint(G(nn))))
+            return out
         ps = z3.Function(f"psum!{fresh('s')}", I, I)
         cur.assume(ps(0) == 0)
         cur.assume(forall([v], z3.Implies(z3.And(v >= 0, v < n), ps(v + 1) == ps(v) + x), patterns=[ps(v + 1)]))
